@@ -231,6 +231,84 @@ def rule_helpers(rep, repo, mod):
   rep.check(ok, "R4", unit, "biased-orientation", why, loc=loc)
 
 
+def rule_phase_read_at_call_time(rep, repo, mod):
+  """R9: the learning phase is read when a quantizer is CALLED.  A function
+  compiled once per input signature (`@tf.function`, `tf.function(f)`,
+  autograph wrappers) freezes every Python-level decision made while it is
+  traced - the branch `smart_cond(K.learning_phase(), ...)` takes, the
+  quantizer's option attributes - so no function from which a learning-phase
+  read is reachable may be wrapped that way.  Syntax-tree rule over the
+  quantizer modules: decorated functions and `tf.function(...)` call sites,
+  reachability through the module's own call graph by name."""
+  import ast
+  mods = [mod]
+  bq = repo.modules.get("qkeras.base_quantizer")
+  if bq is not None:
+    mods.append(bq)
+  funcs = {}
+  for m in mods:
+    for node in ast.walk(m.tree):
+      if isinstance(node, (ast.FunctionDef, ast.AsyncFunctionDef)):
+        funcs.setdefault(node.name, []).append((m, node))
+
+  def names_called(node):
+    out = set()
+    for n in ast.walk(node):
+      if isinstance(n, ast.Call):
+        f = n.func
+        if isinstance(f, ast.Name):
+          out.add(f.id)
+        elif isinstance(f, ast.Attribute):
+          out.add(f.attr)
+    return out
+  reads = set()
+  for name, defs in funcs.items():
+    for m, node in defs:
+      src = ast.unparse(node)
+      if "learning_phase" in src or "in_train_phase" in src:
+        reads.add(name)
+  changed = True
+  while changed:
+    changed = False
+    for name, defs in funcs.items():
+      if name in reads:
+        continue
+      if any(names_called(node) & reads for _, node in defs):
+        reads.add(name)
+        changed = True
+  n = 0
+  for name, defs in sorted(funcs.items()):
+    for m, node in defs:
+      n += 1
+      traced = [ast.unparse(d) for d in node.decorator_list
+                if "tf.function" in ast.unparse(d) or
+                ast.unparse(d).split("(")[0] in ("function", "def_function."
+                                                 "function")]
+      # quantizers are callables: __call__ reaches whatever the class's
+      # helpers reach
+      reaches = name in reads or (name == "__call__" and any(
+          c in reads for c in names_called(node)))
+      rep.check(not (traced and reaches), "R9",
+                "%s::%s" % (m.relpath, name), "phase-read-inside-traced-"
+                "function",
+                "%s is compiled per input signature (%s) and reads the "
+                "learning phase (directly or through %s): the stochastic / "
+                "deterministic decision is frozen by the first call" % (
+                    name, ", ".join(traced), sorted(
+                        names_called(node) & reads)[:3]), loc=m.loc(node))
+  # tf.function(f) applied to a phase-reading function by call
+  for m in mods:
+    for node in ast.walk(m.tree):
+      if isinstance(node, ast.Call) and ast.unparse(node.func) in (
+          "tf.function", "function") and node.args:
+        tgt = ast.unparse(node.args[0]).split(".")[-1]
+        rep.check(tgt not in reads, "R9", "%s::%s" % (m.relpath, tgt),
+                  "phase-read-inside-traced-function",
+                  "tf.function(%s) wraps a function that reads the learning "
+                  "phase" % tgt, loc=m.loc(node))
+  return n
+
+
 def run(rep, repo, tier):
   mod = repo.module(quant.QMOD)
   rep.trusted.append("smart_cond(K.learning_phase(), a, b) evaluates a in "
@@ -427,6 +505,8 @@ def run(rep, repo, tier):
                 (cfg, got, len(rands)), loc=b.pe.loc_of(b.term),
                 instance=cfg)
   rep.require_instances("R8", 4)
+  if rule_phase_read_at_call_time(rep, repo, mod) < 100:
+    raise AnalysisError("instance-count functions of the quantizer modules")
   rep.extra["configuration_points"] = n
   rep.require_instances("R1", 1000)
   rep.require_instances("R2", 300)
